@@ -419,14 +419,149 @@ static void case_nd_prng(vf_rng *r)
 	vf_sample("%s", desc);
 }
 
+/* ------------------------------------------- polyline over two dimensions */
+/*
+ * polyline::set() with two limited dimensions, then iteration: the points
+ * delivered by polyline::part::points() (the drawn points of a part without
+ * the out-of-range helper points at a cut / trimmed end), concatenated over
+ * all parts, are exactly the input points that are in range in both
+ * dimensions, in order, each once.  line() of a part has its usr points.
+ */
+static void run_polyline2(size_t n, const double *x, const double *y, const double (*rg)[2], const char *desc)
+{
+	RT tr(2);
+	tr.set(0, rg[0][0], rg[0][1]); tr.set(1, rg[1][0], rg[1][1]);
+	/* a crossing fraction that underflows double to 0 cannot be stored as non-zero code (see notes): such data are not decided */
+	for (size_t i = 0; i + 1 < n; i++) {
+		const double *v[2] = { x, y };
+		for (int d = 0; d < 2; d++) {
+			for (int w = 0; w < 2; w++) {
+				double out = v[d][i + w], in = v[d][i + 1 - w];
+				if (in < rg[d][0] || in > rg[d][1]) continue;
+				volatile double f = out < rg[d][0] ? (rg[d][0] - out) / (in - out) : out > rg[d][1] ? (out - rg[d][1]) / (out - in) : 1;
+				if (f == 0) { vf_count("data:fraction-underflow", 1); return; }
+			}
+		}
+	}
+	mpt::value_store st[2];
+	if (!st[0].set(mpt::span<const double>(x, n)) || !st[1].set(mpt::span<const double>(y, n))) vf_inconclusive("value_store::set refused %zu doubles", n);
+	mpt::polyline pl;
+	vf_at("polyline::set");
+	bool ok = pl.set(tr, mpt::span<const mpt::value_store>(st, 2));
+	vf_count("polyline::set", 1);
+
+	std::vector<size_t> vis;
+	for (size_t i = 0; i < n; i++) if (x[i] >= rg[0][0] && x[i] <= rg[0][1] && y[i] >= rg[1][0] && y[i] <= rg[1][1]) vis.push_back(i);
+
+	mpt::span<const mpt::linepart> lp = pl.parts();
+	long su = 0;
+	for (auto &e : lp) { su += e.usr; if (vf_logging) vf_log("  part {raw=%u usr=%u cut=%u trim=%u}", e.raw, e.usr, e._cut, e._trim); }
+	VF_CHECK(ok == (su > 0), "cxx:polyline:result", "%s: set() returned %d with %ld drawn points", desc, ok, su);
+	/* the parts themselves */
+	{
+		std::vector<c18_part> p;
+		for (auto &e : lp) { c18_part c = { e.raw, e.usr, e._cut, e._trim }; p.push_back(c); }
+		const double *v[2] = { x, y };
+		if (!p.empty()) c18_check_parts_nd("polyline-nd", v, 2, n, rg, p.data(), p.size());
+	}
+	size_t got = 0, k = 0;
+	const mpt::polyline::point *base = pl.points().begin();
+	long uo = 0;
+	for (mpt::polyline::iterator it = pl.begin(), end = pl.end(); it != end && k < (size_t) lp.size(); ++it, ++k) {
+		mpt::polyline::part pt = *it;
+		const mpt::linepart &e = lp.begin()[k];
+		vf_at("polyline::part::line");
+		mpt::span<const mpt::polyline::point> line = pt.line();
+		VF_CHECK(line.size() == (long) e.usr && (!e.usr || line.begin() == base + uo), "cxx:polyline:iterator-line", "%s: part %zu {usr=%u}: line() has %ld points at offset %ld, expected %u at %ld", desc, k, e.usr, (long) line.size(), (long) (line.begin() - base), e.usr, uo);
+		if (!e.usr) {
+			/* nothing is drawn by this part, whatever its cut / trim fields hold */
+			vf_at("polyline::part::points");
+			mpt::span<const mpt::polyline::point> pts = pt.points();
+			vf_count("polyline::part::points", 1);
+			if (pts.size() != 0 && !vf_known("cxx:polyline:points-of-empty-part")) vf_fail("cxx:polyline:points-of-empty-part", "%s: part %zu {raw=%u usr=0 cut=%u trim=%u}: points() reports %ld points", desc, k, e.raw, e._cut, e._trim, (long) pts.size());
+			if (e._cut || e._trim) vf_count("state:empty-part-with-cut-or-trim", 1);
+		}
+		if (e.usr) {
+			vf_at("polyline::part::points");
+			mpt::span<const mpt::polyline::point> pts = pt.points();
+			vf_count("polyline::part::points", 1);
+			VF_CHECK(pts.size() >= 0 && pts.size() <= (long) e.usr && (!pts.size() || (pts.begin() >= line.begin() && pts.end() <= line.end())), "cxx:polyline:points-outside-line", "%s: part %zu {usr=%u cut=%u trim=%u}: points() has %ld points at offset %ld of its line", desc, k, e.usr, e._cut, e._trim, (long) pts.size(), (long) (pts.begin() - line.begin()));
+			for (auto &q : pts) {
+				if (got >= vis.size()) vf_fail("cxx:polyline:drawn-point-not-in-range", "%s: part %zu {usr=%u cut=%u trim=%u} delivers (%.17g,%.17g) as drawn point, all %zu in-range input points are drawn already", desc, k, e.usr, e._cut, e._trim, q.x, q.y, vis.size());
+				size_t i = vis[got];
+				if (memcmp(&q.x, &x[i], 8) || memcmp(&q.y, &y[i], 8)) vf_fail("cxx:polyline:drawn-points", "%s: part %zu {usr=%u cut=%u trim=%u}: drawn point %zu is (%.17g,%.17g), the next in-range input point is [%zu] = (%.17g,%.17g)", desc, k, e.usr, e._cut, e._trim, got, q.x, q.y, i, x[i], y[i]);
+				got++;
+				vf_count("monitor:polyline2-drawn-points", 1);
+			}
+			if (e.usr == 2 && e._cut && e._trim) vf_count("state:two-point-part-cut-and-trim", 1);
+		}
+		uo += e.usr;
+	}
+	VF_CHECK(got == vis.size(), "cxx:polyline:drawn-points", "%s: %zu points delivered as drawn, %zu input points are in range in both dimensions", desc, got, vis.size());
+	vf_count("monitor:polyline2-lists", 1);
+}
+static uint64_t pl2_ex_count()
+{
+	uint64_t n = 0, c = 1;
+	for (unsigned len = 1; len <= (vf_thorough ? 4u : 3u); len++) { c *= 25; n += c; }
+	return n;
+}
+static void case_polyline2_exhaustive(uint64_t idx)
+{
+	static const double rg[2][2] = { { 0, 1 }, { 0, 1 } };
+	static const char cname[] = "bmiMa";
+	unsigned len = 1;
+	uint64_t c = 25;
+	while (idx >= c) { idx -= c; c *= 25; len++; }
+	double *v[2];
+	char desc[80];
+	size_t l = snprintf(desc, sizeof(desc), "polyline 2 dims classes ");
+	uint64_t code = idx;
+	vf_fp_u64(0x9218); vf_fp_u64(len); vf_fp_u64(idx);
+	for (int d = 0; d < 2; d++) {
+		v[d] = static_cast<double *>(vf_xalloc(len * sizeof(double)));
+		for (unsigned i = 0; i < len; i++) { int k = (int) (code % 5); code /= 5; v[d][i] = nd_class_value(k, i, d); desc[l++] = cname[k]; }
+		desc[l++] = d ? 0 : '/';
+	}
+	vf_log("%s", desc);
+	if (nd_interesting(2, len, v, rg)) vf_nontrivial();
+	run_polyline2(len, v[0], v[1], rg, desc);
+	vf_xfree(v[0], len * sizeof(double)); vf_xfree(v[1], len * sizeof(double));
+	vf_sample("%s (b=below m=min i=inside M=max a=above, range [0,1] each)", desc);
+}
+static void case_polyline2_prng(vf_rng *r)
+{
+	static const double ranges[][2] = { { 0, 1 }, { 0, 10 }, { -5, -2 }, { 1e-3, 2e-3 } };
+	size_t n = vf_chance(r, 1, 10) ? 15 + vf_below(r, 60) : 2 + vf_below(r, 10);
+	double rg[2][2], *v[2];
+	char desc[700];
+	size_t l = snprintf(desc, sizeof(desc), "polyline 2 dims n=%zu:", n);
+	unsigned vis = 6 + vf_below(r, 9);
+	for (int d = 0; d < 2; d++) {
+		const double *c = ranges[vf_below(r, 4)];
+		rg[d][0] = c[0]; rg[d][1] = c[1];
+		v[d] = static_cast<double *>(vf_xalloc(n * sizeof(double)));
+		gen_data(r, v[d], n, rg[d][0], rg[d][1], vis);
+		vf_fp(v[d], n * sizeof(double)); vf_fp(rg[d], sizeof(rg[d]));
+		if (l + 60 < sizeof(desc)) l += snprintf(desc + l, sizeof(desc) - l, " dim %d [%g,%g]:", d, rg[d][0], rg[d][1]);
+		for (size_t i = 0; i < n && l + 30 < sizeof(desc); i++) l += snprintf(desc + l, sizeof(desc) - l, " %.17g", v[d][i]);
+	}
+	vf_log("%s", desc);
+	if (nd_interesting(2, n, v, rg)) vf_nontrivial();
+	run_polyline2(n, v[0], v[1], rg, desc);
+	vf_xfree(v[0], n * sizeof(double)); vf_xfree(v[1], n * sizeof(double));
+	vf_sample("%s", desc);
+}
+
 /* ----------------------------------------------------------------- entry */
 static uint64_t n_a1() { return vf_thorough ? 400000 : 40000; }
 static uint64_t n_set() { return vf_thorough ? 2000 : 200; }
 static uint64_t n_a2() { return vf_thorough ? 400000 : 40000; }
 static uint64_t n_pl() { return vf_thorough ? 200000 : 20000; }
 static uint64_t n_ndp() { return vf_thorough ? 3000000 : 150000; }
+static uint64_t n_pl2() { return vf_thorough ? 500000 : 40000; }
 
-extern "C" uint64_t vf_cases(void) { return n_a1() + n_set() + n_a2() + n_pl() + nd_ex_count() + n_ndp(); }
+extern "C" uint64_t vf_cases(void) { return n_a1() + n_set() + n_a2() + n_pl() + nd_ex_count() + n_ndp() + pl2_ex_count() + n_pl2(); }
 extern "C" void vf_case(uint64_t idx, vf_rng *r)
 {
 	if (idx < n_a1()) { case_apply1(r); return; }
@@ -438,5 +573,9 @@ extern "C" void vf_case(uint64_t idx, vf_rng *r)
 	if (idx < n_pl()) { case_polyline(r); return; }
 	idx -= n_pl();
 	if (idx < nd_ex_count()) { case_nd_exhaustive(idx); return; }
-	case_nd_prng(r);
+	idx -= nd_ex_count();
+	if (idx < n_ndp()) { case_nd_prng(r); return; }
+	idx -= n_ndp();
+	if (idx < pl2_ex_count()) { case_polyline2_exhaustive(idx); return; }
+	case_polyline2_prng(r);
 }
